@@ -31,7 +31,7 @@ ENGINE = "E5-models+E6-evidence"
 TECHNIQUE = "icontract invariant/post-conditions on the real ShmAllocator + lock-step reference model + canary-filled segment around real batch writes"
 LEVEL_TEXT = (
     "Exploration: every alloc/free sequence up to a bounded length on tiny data regions (exhaustive), seeded long random "
-    "sequences (exact-fit and one-too-big sizes, 4094-entry fill) on real segments, and generated batch shapes (wide schemas, "
+    "sequences (exact-fit and one-too-big sizes, 4094-entry fill, full table with an inner gap) on real segments, and generated batch shapes (wide schemas, "
     "schema/field metadata, top-level and nested dictionaries, zero columns, slices) written next to live regions; the header "
     "table is walked by an icontract invariant after every operation and compared with a reference model, written bytes are "
     "compared with a canary image of the whole data region. Held means no counterexample among the executions in the evidence."
